@@ -195,6 +195,17 @@ func genBurst(r *rand.Rand, i int) *Program {
 		}
 		p.Threads = append(p.Threads, th)
 	}
+	if r.Intn(3) == 0 {
+		// a batch that crosses segment boundaries while somebody else dequeues down to the empty queue (Purge does)
+		var ks, prios []int
+		for j := 0; j < 4+r.Intn(6); j++ {
+			ks = append(ks, g.k)
+			prios = append(prios, 0)
+			g.k++
+		}
+		p.Threads = append(p.Threads, []Op{{Op: "addall", B: 0, Ks: ks, Prios: prios}, {Op: "gwait", B: 0}})
+		p.Threads = append(p.Threads, []Op{{Op: "purge"}, {Op: "yield"}, {Op: "purge"}})
+	}
 	if p.Paused {
 		p.Threads = append(p.Threads, []Op{{Op: "yield"}, {Op: "yield"}, {Op: "resume"}})
 	}
@@ -694,6 +705,16 @@ func genTune(r *rand.Rand, i int) *Program {
 	if r.Intn(4) == 0 {
 		c = append(c, Op{Op: "pause"}, Op{Op: "resume"})
 	}
+	if r.Intn(3) == 0 {
+		// the limit flips between n and n−1 under load: every flip down may land inside a reservation
+		n := 2 + r.Intn(2)
+		p.Conc = n
+		c = nil
+		for j := 0; j < 3+r.Intn(4); j++ {
+			c = append(c, Op{Op: "tune", N: n - 1 + j%2})
+		}
+		a = append(a, g.adds(2)...)
+	}
 	p.Threads = [][]Op{a, c}
 	return p
 }
@@ -786,6 +807,10 @@ func genOutcomes(r *rand.Rand, i int) *Program {
 		a = append(a, ad)
 		a = append(a, Op{Op: "jresult", K: ad.K})
 		if r.Intn(2) == 0 {
+			if r.Intn(3) == 0 {
+				// Drain() on a handle whose job may not have finished, then the outcome is asked for all the same
+				b = append(b, Op{Op: "jdrain", K: ad.K})
+			}
 			b = append(b, Op{Op: "jresult", K: ad.K})
 		}
 		if r.Intn(3) == 0 {
